@@ -226,6 +226,13 @@ def handle : Handler := fun op args =>
       match default2D with
       | .error _ => "err"
       | .ok o => save2Answer o xp yp
+  | "c20.printbox" => withArgs (do let s ← pText; let t ← pNat; let r ← pInt; let bc ← pText; let tc ← pText; pure (s, t, r, bc, tc)) args
+      fun (s, t, r, bc, tc) => "ok " ++ encHexU (printBox s t r bc tc)
+  | "c20.progbar" => withArgs (do let p ← pRat; let r ← pNat; let l ← pNat; let t ← pRat; let c ← pText; pure (p, r, l, t, c)) args
+      fun (p, r, l, t, c) =>
+      match progressBar p r l t c with
+      | some s => "ok " ++ encHexU s ++ " " ++ toString (barCellCount p l)
+      | none => "undef"
   | _ => none
 
 def main : IO Unit := driverMain handle
